@@ -157,6 +157,27 @@ def readAll (cols : List Col) (dc : Decomp) (file : Bytes) : String :=
     let (status, k, recs) := loop limit st 0 []
     s!"open=ok rows={st.rows} nexts={k} err={status} recs={if recs.isEmpty then "-" else ";".intercalate recs}"
 
+def showEntry (e : Entry Bytes) : String :=
+  s!"{e.rep}.{e.dl}." ++ (match e.val with | some v => "x" ++ hexBody v | none => "-")
+
+def showEntries (es : List (Entry Bytes)) : String :=
+  if es.isEmpty then "-" else ",".intercalate (es.map showEntry)
+
+/-- the (rep, def, value) triples of every column chunk as the independent parser decodes them:
+row groups separated by `/`, columns by `|` -/
+def showFileEntries (r : V SpecFile) : String :=
+  match r with
+  | .error e => "invalid " ++ e.replace " " "_"
+  | .ok f => if f.rowGroups.isEmpty then "ok -" else
+    "ok " ++ "/".intercalate (f.rowGroups.map fun rg => "|".intercalate (rg.chunks.map fun sc => showEntries sc.entries))
+
+/-- reference striping of a list of records (`;`-separated), per column -/
+def showStripes (cols : List Col) (recs : String) : Option String :=
+  let rs := if recs = "-" then some [] else (recs.splitOn ";").mapM (parseRec cols)
+  match rs with
+  | none => none
+  | some rs => some ("|".intercalate ((List.range cols.length).map fun i => showEntries (rs.flatMap fun r => r.getD i [])))
+
 def transpose (n : Nat) (colsRecs : List (List String)) : List String :=
   (List.range n).map fun i => "|".intercalate (colsRecs.map fun rs => rs.getD i "?")
 
